@@ -630,6 +630,14 @@ def check(model, rep, tier):
             if isinstance(i, ast.If) and any(y is x for b in i.body for y in ast.walk(b)):
               gd = txt(i.test, ren)
           collects.append((gd, x.func.attr, txt(x.args[0], ren) if x.args else None))
+        if isinstance(x, ast.AugAssign) and isinstance(x.op, ast.Add) and isinstance(
+            x.target, ast.Name):
+          # L += items  is  L.extend(items)
+          gd = None
+          for i in ast.walk(lp):
+            if isinstance(i, ast.If) and any(y is x for b in i.body for y in ast.walk(b)):
+              gd = txt(i.test, ren)
+          collects.append((gd, 'extend', txt(x.value, ren)))
     else:
       g = lp.generators[0]
       gd = None
